@@ -642,6 +642,17 @@ def c16_direction_search(ctx):
                                                     'source component is %.20g: more than two ulps apart' % (
                                                         e['id'], dst, u, i, float(co.frac_of_canon(got[i])), float(want))})
                                 break
+                        # "additionally re-normalised": the result is a direction of the target type, so its length
+                        # is one to within four ulps of the *target* precision (the tolerance of C10's search)
+                        fr = [co.frac_of_canon(c) for c in got]
+                        nn = sum(t * t for t in fr)
+                        if nn != 0 and abs(nn - 1) > Fraction(16, 2 ** co.FMT[dst][0]):
+                            out.append({'kind': 'c16-direction', 'entry': e['id'], 'fmt': dst, 'inputs': u,
+                                        'squared_length_minus_one': float(nn - 1),
+                                        'what': '%s at %d bits of the unit vector %s (a %d-bit direction): the result %s has '
+                                                'squared length 1 %+.3e, more than four ulps of the target type from one: '
+                                                'it was not re-normalised' % (e['id'], dst, u, src,
+                                                                              [float(t) for t in fr], float(nn - 1))})
                         if len(out) >= 3:
                             return out
     return out
@@ -655,8 +666,8 @@ def c16_search(ctx, failing, corr, broken):
     for (e, fmt, v, vals, infm), r in _run_targets(ctx, targets, rng):
         if r is None or r.get('error'):
             continue
-        if e['meta']['cls'] in ('Direction', 'PlanarDirection') and e['meta']['kind'] == 'cast-ctor':
-            continue
+        if e['meta']['cls'] in ('Direction', 'PlanarDirection'):
+            continue   # cast, then re-normalised: c16_direction_search
         outs = num_outs(r)
         n = len(outs)
         off = 0 if e['meta']['kind'] == 'cast-ctor' else n
@@ -1844,7 +1855,7 @@ def produces_direction(e):
     m = e['meta']
     if m['cls'].startswith(('unit:', 'model:')) or m.get('unit'):
         return False
-    if m['kind'] in ('ctor', 'cast-ctor') and m['cls'] in ('Direction', 'PlanarDirection'):
+    if m['kind'] in ('ctor', 'cast-ctor', 'cast-assign') and m['cls'] in ('Direction', 'PlanarDirection'):
         return True
     if m['kind'] in ('method', 'static') and m.get('ret') in ('Direction', 'PlanarDirection'):
         return True
@@ -1905,10 +1916,10 @@ def c10_search(ctx, failing, corr, broken):
     for (e, fmt, vals, mode, n, simple), r in zip(info, res):
         if r is None or r.get('error'):
             continue
-        label = 'self' if e['meta']['kind'] == 'mutator' else 'r'
+        label = 'self' if e['meta']['kind'] in ('mutator', 'cast-assign') else 'r'
         outs = [c for (l, c) in num_outs(r) if l.startswith(label)]
         if not outs or any(c in ('nan', 'inf', '-inf') for c in outs):
-            if mode != 'zero' and outs and e['meta']['kind'] != 'cast-ctor':
+            if mode != 'zero' and outs and e['meta']['kind'] not in ('cast-ctor', 'cast-assign'):
                 out.append({'kind': 'c10-nonfinite', 'entry': e['id'], 'fmt': fmt, 'index': e['index'],
                             'inputs': [co.hex_of(*x) for x in vals], 'outputs': outs,
                             'what': '%s returns a non-finite direction for a finite non-zero in-range vector' % e['id']})
@@ -1923,7 +1934,7 @@ def c10_search(ctx, failing, corr, broken):
         else:
             allzero_in = all(m == 0 for (_, m, _) in vals)
             if nn == 0:
-                if simple and not allzero_in and e['meta']['kind'] != 'cast-ctor':
+                if simple and not allzero_in and e['meta']['kind'] not in ('cast-ctor', 'cast-assign'):
                     bad = 'a non-zero vector gives the zero direction'
             elif abs(nn - 1) > Fraction(8, 2 ** p) * 2:   # |‖d‖² − 1| ≤ 2·(4 ulp) to first order
                 bad = 'squared length is 1 %+.3e, more than four ulps from one' % float(nn - 1)
@@ -1934,7 +1945,7 @@ def c10_search(ctx, failing, corr, broken):
             if mode == 'base':
                 last = outs
             elif mode == 'scaled' and bad is None and last is not None and simple and last != outs \
-                    and e['meta']['kind'] != 'cast-ctor':
+                    and e['meta']['kind'] not in ('cast-ctor', 'cast-assign'):
                 bad = 'rescaling the input by a power of two changed the direction from %s to %s' % (last, outs)
         if bad:
             out.append({'kind': 'c10-direction', 'entry': e['id'], 'fmt': fmt, 'index': e['index'],
